@@ -19,9 +19,12 @@ AllFindings == {"F10a", "F10b", "F10c"}
 FixedAB == {"F10a", "F10b"}
 FixedA == {"F10a"}
 FixedB == {"F10b"}
+BothStrategies == {"abort", "ignore"}
+AbortOnly == {"abort"}
+IgnoreOnly == {"ignore"}
 
 \* every finished script, with the outputs M expects after each environment action
-DumpHist == done => PrintT(<<"REPLAY", ToJson([acts |-> hist, kf |-> p.kf, ok |-> p.st, why |-> p.why])>>)
+DumpHist == done => PrintT(<<"REPLAY", ToJson([acts |-> hist, strategy |-> strat, kf |-> p.kf, ok |-> p.st, why |-> p.why])>>)
 \* (as ACTION_CONSTRAINT, so that a script is printed once, when it finishes)
-DumpOnFinish == (done' /\ ~done) => PrintT(<<"REPLAY", ToJson([acts |-> hist', kf |-> p'.kf, ok |-> p'.st, why |-> p'.why])>>)
+DumpOnFinish == (done' /\ ~done) => PrintT(<<"REPLAY", ToJson([acts |-> hist', strategy |-> strat, kf |-> p'.kf, ok |-> p'.st, why |-> p'.why])>>)
 =============================================================================
